@@ -197,6 +197,34 @@ def incompressible(rng, n, prefix=b'--'):
     return (prefix + body)[:n]
 
 
+def edge_text(rng, stream_len):
+    """A one-line comment whose `:c:` stream, as a greedy longest-match encoder builds it, has exactly stream_len bytes, and which is longer
+    than that (so the compressed form is the one that gets stored): `--`, then characters outside the one-byte table with no 3-character
+    repeat (two bytes each), then 500 copies of a 17-character block taken from that text (two bytes each), then at most one table
+    character.  The caller verifies the size with the reference encoder."""
+    table = b'\n 0123456789abcdefghijklmnopqrstuvwxyz!#%(){}[]<>+=/*:;.,~_'
+    pool = bytes(b for b in range(33, 256) if b not in table and b not in b'\r\\')
+    r = 500
+    tail = (stream_len - 2 * r) % 2
+    n = (stream_len - 2 * r - tail) // 2 - 2
+    while True:
+        out = bytearray(b'--')
+        seen = set()
+        while len(out) < n + 2:
+            c = rng.choice(pool)
+            if len(out) >= 2:
+                g = (out[-2], out[-1], c)
+                if g in seen or (len(out) == 2 and c == 91):
+                    continue
+                seen.add(g)
+            out.append(c)
+        block = bytes(out[-40:-23])
+        g = (out[-2], out[-1], block[0])
+        if g in seen:
+            continue
+        return bytes(out) + block * r + (b'q' if tail else b'')
+
+
 def bytes_lua(rng, nlines=12, crlf=False):
     """Valid Lua lines that carry arbitrary P8SCII bytes in comments, quoted strings, long strings and identifiers.
 
